@@ -43,7 +43,7 @@ def run(p):
                     except StopIteration:
                         log.append(["direct", state["tick"], k, "stop"])
                 if t.get("sets"):
-                    val = 100 * (k + 1) + counters[k]
+                    val = 0 if counters[k] % 3 == 2 else 100 * (k + 1) + counters[k]
                     Globals.set("x", val)
                     log.append(["set", state["tick"], k, val])
                 counters[k] += 1
